@@ -517,6 +517,8 @@ structure Prog where
   id : Nat
   state : Nat
   matchIdx : Nat
+  next : Nat := matchIdx + 1      -- raft's optimistic send position (not read by the classification)
+  active : Bool := true           -- raft's RecentActive (not read by the classification)
 deriving DecidableEq, Repr
 
 /-- What `Status()` / `GetClusterProgress()` read from the raft server. -/
